@@ -21,7 +21,7 @@ def scenario(g, i):
     r = g.r
     s, n = gen.render(a, "Snake"), gen.render(b, "Snake")
     tree = g.tree(a, depth=3, symlinks=False)
-    kind = i % 7
+    kind = i % 9
     if kind == 0:      # file over file
         tree += [{"p": f"{s}.txt", "k": "f", "c": b"source " + s.encode() + b"\n", "m": 0o644},
                  {"p": f"{n}.txt", "k": "f", "c": b"occupant precious\n", "m": 0o600}]
@@ -41,6 +41,12 @@ def scenario(g, i):
     elif kind == 5:    # occupied inside a renamed directory
         tree += [{"p": f"{s}_d", "k": "d", "m": 0o755}, {"p": f"{s}_d/{s}.txt", "k": "f", "c": b"x\n", "m": 0o644},
                  {"p": f"{s}_d/{n}.txt", "k": "f", "c": b"occupant\n", "m": 0o644}]
+    elif kind == 7:    # destination is a symlink that resolves to the source itself (an alias)
+        tree += [{"p": f"{s}.txt", "k": "f", "c": b"aliased\n", "m": 0o644},
+                 {"p": f"{n}.txt", "k": "l", "t": f"{s}.txt"}]
+    elif kind == 8:    # source is a symlink whose target is the (existing) destination
+        tree += [{"p": f"{n}.cfg", "k": "f", "c": b"real file\n", "m": 0o644},
+                 {"p": f"{s}.cfg", "k": "l", "t": f"{n}.cfg"}]
     else:              # case variant of the destination exists
         tree += [{"p": f"{s}.txt", "k": "f", "c": b"lower\n", "m": 0o644},
                  {"p": f"{n.upper()}.txt", "k": "f", "c": b"upper occupant\n", "m": 0o644}]
@@ -140,7 +146,7 @@ def run(R):
         one_case(R, H, M, tree, s, nn, out, kind)
     # CLI level
     cli_ok = 0
-    for i in range(7 if R.tier == "quick" else 70):
+    for i in range(9 if R.tier == "quick" else 90):
         tree, s, nn, kind = scenario(g, i)
         with cli.Sandbox(tree) as sb:
             before = sb.snapshot()
@@ -160,7 +166,7 @@ def run(R):
                 out["fail"].append({"why": f"CLI rename lost pre-existing entries: {lost[:4]}", "rc": rc, "kind": kind,
                                     "tree": cli.tree_json(tree), "search": s, "replace": nn,
                                     "stderr": e.decode("utf-8", "replace")[-300:]})
-            if rc != 0 and after != before and kind in (0, 1, 2, 3, 5):
+            if rc != 0 and after != before and kind in (0, 1, 2, 3, 5, 7, 8):
                 out["fail"].append({"why": "CLI rename was refused but the tree changed", "rc": rc, "kind": kind,
                                     "tree": cli.tree_json(tree), "search": s, "replace": nn,
                                     "diff": repr(cli.diff_snap(before, after))[:800]})
@@ -168,7 +174,7 @@ def run(R):
     H.close()
     M.close()
     R.coverage["input_distribution"] = {"occupied_cases": out["occupied_cases"], "refused_at_plan_time": out["plan_refused"],
-                                        "kinds(0 file/file,1 dir/emptydir,2 dir/dir,3 file/symlink,4 chain,5 nested,6 case)": out["kinds"]}
+                                        "kinds(0 file/file,1 dir/emptydir,2 dir/dir,3 file/symlink,4 chain,5 nested,6 case,7 alias symlink dest,8 symlink source to dest)": out["kinds"]}
     R.disagreements = len(out["dis"])
     for f in out["fail"][:3]:
         R.violation(f["why"], {"kind": "impl_failure", **f})
